@@ -85,8 +85,18 @@ def run(tier):
     for c in members:
         if c["ind"] in ("direct", "let", "idfn", "implet", "impfn"):
             groups.setdefault((c["pos"], c["shape"]), []).append(c)
+    # annotated values (schema, property, content and transfer level; declaration, terminal and use-site annotations)
+    ra = run_tlc("DenMC", "Den_annots.cfg", workers=8, timeout=1800, java_opts=["-Xss512m"])
+    chk.add_tlc(ra)
+    annots = [dict(c, pos=c["label"][0], shape=c["label"][1], ind=c["label"][2], use=c["label"][3]) for c in ra.cases if c["defined"]]
+    for c in annots:
+        # written in place there is no separate use site: the in-place form is the base only for use = none
+        if c["ind"] in ("direct", "let", "idfn", "implet", "impfn"):
+            groups.setdefault(("annots", c["pos"], c["shape"], c["use"]), []).append(c)
     nsel = 120 if tier == "quick" else 1200
     sel = members if len(members) <= nsel else rng.sample(members, nsel)
+    nann = 60 if tier == "quick" else 600
+    sel = sel + (annots if len(annots) <= nann else rng.sample(annots, nann))
     cases = []
     meta = []
     for c in sel:
@@ -98,13 +108,13 @@ def run(tier):
     for key, cs in groups.items():
         if len(cs) < 2:
             continue
-        base = [c for c in cs if c["ind"] == "direct"]
+        base = [c for c in cs if c["ind"] == "direct"] or [c for c in cs if c["ind"] == "let"]
         if not base:
             continue
         cases.append(case_of(base[0]["prog"], {}))
         meta.append((base[0], "original", key))
         for c in cs:
-            if c["ind"] != "direct":
+            if c is not base[0]:
                 cases.append(case_of(c["prog"], {}))
                 meta.append((base[0], "indirection-" + c["ind"], key))
     obs = run_oalv_parallel("compile", cases, jobs=8)
@@ -129,7 +139,11 @@ def run(tier):
                 name, ro["k"], ro.get("cls") or ro.get("msg", "")[:60], list(hc["files"].values())[0][:160]), payload)
         elif not absdoc.same(oo["doc"], o["doc"]):
             payload["difference"] = absdoc.first_difference(oo["doc"], o["doc"])
-            chk.violation("C05|document-changed|%s" % name.split("-style")[0], "after %s the document differs at %s: %r" % (
+            dd = payload["difference"] or ""
+            field = dd.split(":")[0].rstrip("/").split("/")[-1] if dd else "?"
+            field = "component" if field.startswith("hash-") or "/components/" in dd.split(":")[0] and field not in ("title", "description") else field
+            how = "missing" if "only on one side" in dd else "changed"
+            chk.violation("C05|document-changed|%s|%s|%s" % (name.split("-style")[0], field, how), "after %s the document differs at %s: %r" % (
                 name, payload["difference"], list(hc["files"].values())[0][:160]), payload)
         else:
             chk.cov["traces_validated_against_impl"] += 1
